@@ -11,7 +11,7 @@ from sqlcase import SqlCase, std_table, replay_sql
 RULE = ('layer 2: every key multiset over a 3-valued domain (NULL, a, b) for tables of up to 5 rows x every aggregate '
         'function over every admissible argument type; layer 3: seeded random aggregate queries over an 11-column typed '
         'table: GROUP BY keys by expression / output name / position, visible or invisible, explicit or implicit, '
-        'arithmetic over aggregates, WHERE and HAVING.  Non-trivial = at least two source rows; distinct protocol lines.')
+        'arithmetic over aggregates, WHERE and HAVING; fixed corpora (redundant and repeated keys, FROM-subqueries and their row order, LIMIT on groups, GROUP BY without aggregates); on the implementation: grouping keys that are tuples (amounts, positions) against a fold in the harness, aggregates over inventory-typed columns alone and side by side.  Non-trivial = at least two source rows; distinct protocol lines.')
 ASSUMPTIONS = ['dict insertion order and tuple hashing/equality of int/bool/Decimal as modelled (eqKey)',
                'inventory sums are covered by C12, not here']
 
